@@ -141,7 +141,10 @@ fn section_header_with_name<'sc>(
             // This can't be a match.
             continue;
         }
-        let n = module_memory.read(strtab_section_header.sh_offset + sh_name, name.len() as u64)?;
+        let n = module_memory.read(
+            strtab_section_header.sh_offset.saturating_add(sh_name),
+            name.len() as u64,
+        )?;
         if name == &*n {
             return Ok(Some(header));
         }
@@ -426,7 +429,10 @@ impl<'buf> ModuleReader<'buf> {
         assert!(name_offset < strtab_size);
         let name = self
             .module_memory
-            .read(strtab_offset + name_offset, strtab_size - name_offset)?;
+            .read(
+                strtab_offset.saturating_add(name_offset),
+                strtab_size - name_offset,
+            )?;
         CStr::from_bytes_until_nul(&name)
             .map(|s| s.to_string_lossy().into_owned())
             .map_err(|_| Error::StrTabNoNulByte)
